@@ -534,8 +534,14 @@ class _Ctx:
         found = []
 
         def visit(n, is_top):
+            # calls evaluated per element (comprehensions), later (lambdas) or conditionally (conditional expressions,
+            # the right operands of and/or) cannot be moved in front of the statement
+            if isinstance(n, (ast.Lambda, ast.ListComp, ast.SetComp, ast.DictComp, ast.GeneratorExp)):
+                return
             for c in ast.iter_child_nodes(n):
-                if isinstance(c, (ast.Lambda, ast.ListComp, ast.SetComp, ast.DictComp, ast.GeneratorExp)):
+                if isinstance(n, ast.IfExp) and c is not n.test:
+                    continue
+                if isinstance(n, ast.BoolOp) and c is not n.values[0]:
                     continue
                 visit(c, False)
             if isinstance(n, ast.Call) and not (is_top and isinstance(s, (ast.Expr, ast.Return, ast.Assign))):
@@ -690,6 +696,21 @@ class _Ctx:
     def st_AugAssign(self, s, st):
         cur = self.ev(_load(s.target), st)
         v = self.ev(s.value, st, stmt=s)
+        if isinstance(s.op, ast.Add) and isinstance(cur, Fresh) and cur.kind in ('list', 'call:list', 'listcomp', 'copy') and \
+                isinstance(v, Fresh) and v.kind == 'list' and v.detail is None and v.items and \
+                all(not (isinstance(x, App) and x.fn == '*') for x in v.items):
+            # `lst += [a, b]` on a list allocated in this activation is in-place: the same as appending each element
+            for item in v.items:
+                self.store_event(st, s, _load(s.target), cur, 'append', args=(item,), kw=(), key=item, value=item)
+                self.bump(st, cur)
+                vb = self.versioned(st, cur)
+                if cur in st.contents:
+                    if st.contents[cur] is not None and st.approx == 0:
+                        st.contents[cur] = st.contents[cur] + (item,)
+                    else:
+                        st.contents[cur] = None
+                st.known[AIn(item, vb)] = True
+            return self._after_calls(st)
         nv = self.binop(s.op, cur, v, s)
         self.assign(s.target, nv, st, s, aug=type(s.op).__name__, operand=v)
         return self._after_calls(st)
@@ -839,9 +860,27 @@ class _Ctx:
                 return [Num(Fraction(i)) for i in range(lo, hi)]
         return None
 
+    def _known_empty(self, it: Term, st: State) -> bool:
+        """it is a container display allocated empty in this activation and not written since."""
+        if not (isinstance(it, Fresh) and it.kind in ('dict', 'list', 'set', 'tuple') and not it.items and it.detail is None):
+            return False
+        if st.ver.get(it, 0):
+            return False
+        return not any(e.kind == 'store' and e.data.get('root') == it for e in st.events)
+
     def st_For(self, s, st):
         it = self.ev(s.iter, st, stmt=s)
         lid = s.lineno
+        if self._known_empty(it, st):
+            outs = []
+            for p0 in self._after_calls(st):
+                if p0.status == 'normal':
+                    self.emit(p0, 'loop', s, iter=it, iter_expr=s.iter, target=s.target, literal=True)
+                    self.emit(p0, 'endloop', s, iterations=0, how='exhausted', at_bound=False)
+                    outs.extend(self.block(s.orelse, [p0]) if s.orelse else [p0])
+                else:
+                    outs.append(p0)
+            return outs
         items = self._literal_items(it, allow_range=False) if (not isinstance(s.iter, ast.Name) or isinstance(it, TupleT)) else None
         if items is not None and not s.orelse:
             # a loop over a display written in place runs exactly once per element: unrolled completely
@@ -1541,6 +1580,12 @@ class _Ctx:
         if isinstance(op, (ast.Is, ast.IsNot)):
             x, y = sorted((a, b), key=lambda t: (not isinstance(t, Const), t.key()))
             f = AIs(y, x) if isinstance(x, Const) else AIs(x, y)
+            # identity of two known singletons, or of None and an object allocated here, is decided
+            if isinstance(a, Const) and isinstance(b, Const) and all(t.value is None or isinstance(t.value, bool) for t in (a, b)):
+                f = FConst(a.value is b.value)
+            elif any(isinstance(t, Const) and t.value is None for t in (a, b)) and \
+                    any(isinstance(t, (Fresh, Num, TupleT)) or (isinstance(t, App) and t.fn.startswith('new:')) for t in (a, b)):
+                f = FConst(False)
             return f if isinstance(op, ast.Is) else f_not(f)
         sym = {ast.Lt: '<', ast.LtE: '<=', ast.Gt: '>', ast.GtE: '>=', ast.Eq: '==', ast.NotEq: '!='}[type(op)]
         if any(isinstance(t, App) and t.fn == 'type' for t in (a, b)) and sym in ('==', '!='):
@@ -1651,6 +1696,16 @@ class _Ctx:
                 ms0 = self.prog.lookup_method(bt0[1], st.env[f.id].name)
                 if ms0 and not ms0[0].is_property:
                     tgt = CallTarget('pkg', [ms0[0]], via='method', name=st.env[f.id].name, recv_type=bt0)
+                    bound_recv = st.env[f.id].base
+            elif not bt0 and not tgt.resolved:
+                # receiver of unknown type: the same by-name fallback as for a call written in place
+                nm = st.env[f.id].name
+                cands = [c for c in self.prog.classes.values() if nm in c.methods and not c.methods[nm][0].is_property]
+                roots = [c for c in cands if not any(o != c and o in self.prog.mro(c) for o in cands)]
+                if cands and len(roots) == 1:
+                    funcs = [c.methods[nm][0] for c in cands]
+                    funcs.sort(key=lambda m: 0 if m.cls == roots[0] else 1)
+                    tgt = CallTarget('pkg', funcs, via='byname', name=nm)
                     bound_recv = st.env[f.id].base
         if tgt.resolved:
             self.w.stats['calls_resolved'] += 1
@@ -1800,7 +1855,8 @@ class _Ctx:
             r = inl if inl is not None else App('call:' + cname, ((recv,) if (skip_self and recv is not None) else ()) + tuple(args), kwt)
             ev = self.emit(st, 'call', e, targets=tgt.funcs, target_kind='pkg', callee_name=cname,
                            recv=recv if skip_self else None, args=tuple(args), kw=kwt, via=tgt.via, expr=e, result=r,
-                           inlined=inl is not None)
+                           inlined=inl is not None,
+                           func_term=(st.env.get(f.id) if isinstance(f, ast.Name) and f.id in st.env else None))
             if inl is None:
                 self._attach_raises(ev, tgt, recv if skip_self else None, args, kw, st, skip_self)
                 if any(self.w.is_abstract(c) for c in tgt.funcs):
